@@ -5,6 +5,7 @@ From WV Require Import Model.Base Generated.Consts Model.Bits Model.WaveMem Mode
   Model.GhwAlias Model.GhwHier.
 Open Scope N_scope.
 
+
 (* into_decode_info: the registered signals, the unregistered slots dropped *)
 Fixpoint decode_signals (slots : list sig_slot) : outcome (list ghw_sig) :=
   match slots with
@@ -28,13 +29,49 @@ Fixpoint enc_of_ref (calls : list fcall) (ref : nat) : sig_enc :=
   | _ :: rest => enc_of_ref rest ref
   end.
 
+(* try_read_directory: the last 12 bytes of a finished file (`TAI\0`, four zero bytes, the offset of the directory) lead to the
+   directory, which must be well formed (it is read although its content is not used); a file without tailer has none *)
+Fixpoint dir_entries (be : bool) (n : N) (fuel : nat) (inp : list byte) : outcome (list byte) :=
+  match fuel with
+  | O => Err
+  | S f =>
+    if n =? 0 then Ok inp
+    else
+      do '(e, r) <- take 8 inp;
+      do _ <- u32_of be (skipn 4 e);
+      dir_entries be (n - 1) f r
+  end.
+
+Definition try_read_directory (be : bool) (file : list byte) : outcome unit :=
+  if (length file <? 12)%nat then Ok tt
+  else
+    let tailer := skipn (length file - 12) file in
+    if negb (list_eqb (firstn 4 tailer) ghw_tailer_section) then Ok tt
+    else
+      do off <- u32_of be (skipn 8 tailer);
+      let at_dir := if off <? N.of_nat (length file) then skipn (N.to_nat off) file else [] in
+      do '(mark, r) <- take 4 at_dir;
+      if negb (list_eqb mark ghw_directory_section) then Err
+      else
+        do '(h, r2) <- take 8 r;
+        do n <- u32_of be (skipn 4 h);
+        do r3 <- dir_entries be n (S (length r2)) r2;
+        do '(e, _) <- take 4 r3;
+        if list_eqb e ghw_end_directory_section then Ok tt else Err.
+
+(* read_header_internal: the 16 byte header, the directory (if the file has a tailer), then the sections up to EOH *)
+Definition ghw_read_header_file (debug : bool) (inp : list byte) : outcome (bool * ghw_header_result) :=
+  do '(be0, _) <- read_ghw_header inp;
+  do _ <- try_read_directory be0 inp;
+  ghw_read_header debug inp.
+
 Section WithExternals.
 Variable lz_compress : list byte -> list byte.
 Variable cap : N.
 
 Definition ghw_read_file (debug : bool) (inp : list byte)
   : outcome (ghw_header_result * list sig_enc * option (list block * list N)) :=
-  do '(be, res) <- ghw_read_header debug inp;
+  do '(be, res) <- ghw_read_header_file debug inp;
   let t := ghr_tracker res in
   do sigs <- decode_signals (tr_signals t);
   let tpes := map (enc_of_ref (ghr_calls res)) (seq 0 (tr_count t)) in
